@@ -280,6 +280,28 @@ pub fn diverge_block(edit: impl Strategy<Value = Edit> + Clone) -> impl Strategy
         })
 }
 
+/// "Sandwich" partial commit: agents insert lines at three places of one file, only the
+/// middle hunk is staged and committed (the state `git add -p` produces), the outer hunks
+/// stay unstaged right above and below the committed lines; then everything is committed.
+pub fn sandwich_partial_block() -> impl Strategy<Value = Vec<HOp>> {
+    (0u8..3, any::<u16>(), gen::ai_actor(), gen::ai_actor(), gen::line_specs(2), gen::line_specs(2), gen::line_specs(2), 1u16..8).prop_map(
+        |(file, base, a1, a2, l1, l2, l3, mask)| {
+            // positions are fractions of the (growing) file: low, middle, high
+            let lo = base / 4;
+            let mid = 0x7000u16.saturating_add(base / 8);
+            let hi = 0xf000u16.saturating_add(base / 16);
+            vec![
+                HOp::Edit { actor: a1, file, edit: Edit::Insert { pos: mid, lines: l2 } },
+                HOp::Edit { actor: a2, file, edit: Edit::Insert { pos: lo, lines: l1 } },
+                HOp::Edit { actor: a1, file, edit: Edit::Insert { pos: hi, lines: l3 } },
+                // hunks are numbered top to bottom: bit 1 = the middle one (other masks too)
+                HOp::CommitHunks { file, mask: if mask < 5 { 0b010 } else { mask } },
+                HOp::Commit,
+            ]
+        },
+    )
+}
+
 /// "Reject and rewrite": an agent adds lines, a person touches something else in the file,
 /// throws everything the agent wrote away and types their own lines at the same place.
 /// `checkpoints` bit i set => an explicit human checkpoint after the i-th human step.
@@ -1534,7 +1556,7 @@ impl Engine {
                     // hunks HEAD -> working tree (index state is overwritten on purpose)
                     let o = self.w.rgit(&[
                         "-c", "core.quotePath=false", "--literal-pathspecs", "diff", "-U0", "--no-renames", "--no-color", "--no-ext-diff",
-                        "--no-textconv", "--diff-algorithm=myers", "--no-indent-heuristic", "HEAD", "--", &p,
+                        "--no-textconv", "--diff-algorithm=myers", "--no-indent-heuristic", "--inter-hunk-context=0", "--src-prefix=a/", "--dst-prefix=b/", "HEAD", "--", &p,
                     ]);
                     let hunks = crate::diffp::hunks_single_file(&o.stdout);
                     if hunks.len() >= 2 {
